@@ -707,6 +707,7 @@ pub fn worker_main(a: WorkerArgs) -> i32 {
             if let Some(t) = trace.as_ref() {
                 set_phase_file(&format!("{}.phase", t));
             }
+            let already_shrunk: Vec<String> = std::env::var("VERIF_SHRUNK_SIGS").map(|s| s.split('\n').filter(|x| !x.is_empty()).map(|x| x.to_string()).collect()).unwrap_or_default();
             for index in start..end {
                 phase("");
                 p2.store(index, Ordering::SeqCst);
@@ -775,6 +776,8 @@ pub fn worker_main(a: WorkerArgs) -> i32 {
                         if acc.failures.iter().any(|f| f.sig == sig) {
                             continue;
                         }
+                        // signatures another worker of this run already shrank: report, do not shrink again
+                        let no_shrink = no_shrink || already_shrunk.iter().any(|x| *x == sig);
                         let mut fail = Failure {
                             stage: stage.name.to_string(),
                             index,
@@ -955,8 +958,18 @@ fn merge_worker(m: &mut Merged, v: &Value, stage_name: &str) {
     if let Some(a) = v["failures"].as_array() {
         for f in a {
             let f = Failure::from_json(f);
-            if !m.failures.iter().any(|x| x.sig == f.sig) {
-                m.failures.push(f);
+            if f.shrunk {
+                if let Ok(mut v) = SHRUNK_SIGS.lock() {
+                    if !v.contains(&f.sig) {
+                        v.push(f.sig.clone());
+                    }
+                }
+            }
+            // keep one failure per signature, preferring a shrunk one
+            match m.failures.iter().position(|x| x.sig == f.sig) {
+                None => m.failures.push(f),
+                Some(i) if f.shrunk && !m.failures[i].shrunk => m.failures[i] = f,
+                Some(_) => {}
             }
         }
     }
@@ -974,6 +987,9 @@ enum WorkerResult {
     Crash { index: Option<u64>, status: String, phase: String },
 }
 
+/// Signatures for which some worker of this run already produced a shrunk failure.
+static SHRUNK_SIGS: Mutex<Vec<String>> = Mutex::new(Vec::new());
+
 fn run_worker(cfg: &RunCfg, stage: usize, start: u64, end: u64, no_shrink: bool) -> WorkerResult {
     let trace = format!("{}/trace-{}-{}-{}-{}", work_dir(), cfg.prop, stage, start, std::process::id());
     let mut cmd = Command::new(&cfg.exe);
@@ -985,6 +1001,7 @@ fn run_worker(cfg: &RunCfg, stage: usize, start: u64, end: u64, no_shrink: bool)
         .arg("--start").arg(start.to_string())
         .arg("--end").arg(end.to_string())
         .arg("--trace").arg(&trace)
+        .env("VERIF_SHRUNK_SIGS", SHRUNK_SIGS.lock().map(|v| v.join("\n")).unwrap_or_default())
         .stdin(Stdio::null())
         .stdout(Stdio::piped())
         .stderr(Stdio::null());
